@@ -139,6 +139,7 @@ class GlomError(Exception):
         exc_wrapper_type = type(f"GlomError.wrap({exc_type.__name__})", bases, {})
         try:
             wrapper = exc_wrapper_type(*exc.args)
+            wrapper.args = exc.args  # a constructor may have rewritten them
             wrapper.__wrapped = exc
             return wrapper
         except Exception:  # maybe exception can't be re-created
@@ -2286,6 +2287,7 @@ def glom(target, spec, **kwargs):
                 err = copy.copy(e)
             except Exception:  # maybe exception can't be re-created, same fallback as wrap()
                 err = e
+            err.args = e.args  # a constructor may have rewritten them
             err._set_wrapped(e)
         else:
             err = GlomError.wrap(e)
